@@ -72,6 +72,10 @@ CHECKS = {
    technique="bounded-exhaustive enumeration of living-person roles (all single roles and all role pairs) x visibility x all 64 page-group subsets x jobs, with an exact marker search over every published file and a byte-level hide differential",
    text="A fixed cast of dead people plus one or two living people in every role (14 roles, all pairs), every personal string a unique marker token, published through the real Publisher into memory under hide/placeholder x all 64 page-group subsets x jobs {1,2}, also after the same document object was published with 'show': no file name, body or link target may contain a living marker; in hide mode a second document that differs only in the living people's data must publish byte-identically; dead people's pages must exist with their names; 'show' is the positive control for the search.",
    note="Two root causes are known findings (surname list and place pages ignore -living; 9 signatures). Pages that panic while rendering are counted so a masked leak is not reported clean. Quick tier runs role pairs on 4 of the 64 page-group subsets."),
+ "C18": dict(engine="E3", category="exploration", design_ref="§4 C18",
+   technique="exhaustive taint enumeration: every value position tainted alone / all together / none x every output surface, judged by a strict own HTML tokenizer with a context-sensitive escaping oracle",
+   text="Each of 49 value positions of a document template (pointers, names and name parts, types, sex, event values, dates, places with form/map, notes, attributes, _UID, source title/properties at two depths, citation page) carries a unique token with < > \" ' & (also followed by a literal &nbsp;), alone and all together, over every page of a full publish under show/hide/placeholder, the diff report (3 show modes x tainted left/right/both), HTML query output for 11 queries and the warnings table; each page must tokenize strictly and nest properly and every token occurrence must be escaped inside text or a quoted attribute value, never in names, unquoted values, script/style, comments or breaking a handler's JavaScript string.",
+   note="Trusts the tokenizer in harness/pub. The single tier is exhaustive over positions x surfaces (quick = thorough). Three sink findings fixed (core.Tag attributes, core.Anchor, core.TableHead)."),
  "C20": dict(engine="E3", category="exploration", design_ref="§4 C20",
    technique="bounded-exhaustive enumeration of skeleton family graphs x all slot assignments with up to k deviations from threshold lattices x all record/child permutations, against an independent reference evaluator of the documented warning conditions",
    text="Skeleton documents (two families sharing a parent with 0-3 children; a 5-record family) with each date/sex slot either at a no-warning default or at a value clearly on one side of a documented threshold; every assignment with up to 2 (quick) / 3 (thorough) deviating slots; all 120 record orders x both child orders of the small skeleton; the multiset of (warning name, people, context) from Document.Warnings() must equal the reference evaluator's.",
